@@ -320,6 +320,12 @@ func (s *session) SignalConnectionClose(params connection.DisconnectParams) {
 			willIn, _ = val.AsInt()
 		}
 
+		// the will is delayed until the delay has passed or the session ends, whichever comes
+		// first: a session that is not durable ends together with this connection
+		if !s.durable {
+			willIn = 0
+		}
+
 		if willIn == 0 {
 			if err := s.messenger.Publish(s.will); err != nil {
 				s.log.Error("Publish will message", zap.String("ClientID", s.id), zap.Error(err))
